@@ -1,12 +1,77 @@
 import Jose.Prim
 import Jose.Driver.IO
+import Jose.Crypto.Hmac
+import Jose.Crypto.Ec
+import Jose.Crypto.Rsa
 namespace Jose.Driver
-open Jose
+open Jose Jose.Crypto
 
 def hashByName (n : String) : Option (Bs → Bs) :=
   (hashAlgOfName n).map (fun h => fun (b : Bs) => baToNats (Crypto.hash h (natsToBA b)))
 
+def natOfBs (b : Bs) : Nat := b.foldl (fun n x => n * 256 + x) 0
+
+def curveOfName : String → Option Curve
+  | "P-256" => some p256 | "P-384" => some p384 | "P-521" => some p521 | "secp256k1" => some secp256k1
+  | _ => none
+
+def hmacByName (h : String) (key msg : Bs) : Bs :=
+  match hashAlgOfName h with
+  | some a => baToNats (Crypto.hmac a (natsToBA key) (natsToBA msg))
+  | none => []
+
+/-- what EC_KEY_check_key accepts: coordinates are reduced mod p by
+    EC_POINT_set_affine_coordinates, the point must be on the curve and not at infinity;
+    a private value must be in [1, n-1] and match the public point -/
+def ecValidReal (crv : String) (x y : Bs) (d : Option Bs) : Bool :=
+  match curveOfName crv with
+  | none => false
+  | some c =>
+    let xn := natOfBs x % c.p
+    let yn := natOfBs y % c.p
+    validPublic c xn yn &&
+    (match d with
+     | none => true
+     | some db => validPrivate c (natOfBs db) xn yn)
+
+def ecdsaVerifyReal (crv : String) (x y digest r s : Bs) : Bool :=
+  match curveOfName crv with
+  | none => false
+  | some c => ecdsaVerify c (.affine (natOfBs x % c.p) (natOfBs y % c.p)) (digestToE c (natsToBA digest)) (natOfBs r) (natOfBs s)
+
+def fixedWidth (n len : Nat) : Bs :=
+  match natToBytes n len with
+  | some b => baToNats b
+  | none => []
+
+def ecdsaSignReal (crv : String) (d digest rnd : Bs) : Option (Bs × Bs) :=
+  match curveOfName crv with
+  | none => none
+  | some c =>
+    let k := natOfBs rnd % (c.n - 1) + 1
+    match ecdsaSign c (natOfBs d) k (digestToE c (natsToBA digest)) with
+    | some (r, s) => some (fixedWidth r c.len, fixedWidth s c.len)
+    | none => none
+
+def rsaVerifyReal (pss : Bool) (h : String) (n e msg sig : Bs) : Bool :=
+  match hashAlgOfName h with
+  | none => false
+  | some a =>
+    if pss then rsaPssVerify a (natOfBs n) (natOfBs e) (natsToBA msg) (natsToBA sig) (some a.size)
+    else rsaPkcs1v15Verify a (natOfBs n) (natOfBs e) (natsToBA msg) (natsToBA sig)
+
+def rsaSignReal (pss : Bool) (h : String) (n d msg rnd : Bs) : Option Bs :=
+  match hashAlgOfName h with
+  | none => none
+  | some a =>
+    if pss then
+      let salt := (Crypto.hash a (natsToBA rnd))
+      (rsaPssSign a (natOfBs n) (natOfBs d) (natsToBA msg) salt).map baToNats
+    else (rsaPkcs1v15Sign a (natOfBs n) (natOfBs d) (natsToBA msg)).map baToNats
+
 /-- the executable instance of the abstract primitives -/
-def realPrims : Prims := { hash := hashByName }
+def realPrims : Prims :=
+  { hash := hashByName, hmac := hmacByName, ecValid := ecValidReal, ecdsaVerify := ecdsaVerifyReal,
+    ecdsaSign := ecdsaSignReal, rsaVerify := rsaVerifyReal, rsaSign := rsaSignReal }
 
 end Jose.Driver
